@@ -263,9 +263,40 @@ func init() {
 			return &c
 		},
 		"(*regexp.Regexp).MatchString": func(fr *frame, a []value) value {
-			re := (*a[0].(*value)).(*nativeObj).v.(*regexp.Regexp)
-			return re.MatchString(str(a[1]))
+			return nativeRegexp(a[0]).MatchString(str(a[1]))
 		},
+		"(*regexp.Regexp).ReplaceAllString": func(fr *frame, a []value) value {
+			return nativeRegexp(a[0]).ReplaceAllString(str(a[1]), str(a[2]))
+		},
+		"(*regexp.Regexp).FindString": func(fr *frame, a []value) value {
+			return nativeRegexp(a[0]).FindString(str(a[1]))
+		},
+		"(*regexp.Regexp).FindStringSubmatch": func(fr *frame, a []value) value {
+			m := nativeRegexp(a[0]).FindStringSubmatch(str(a[1]))
+			if m == nil {
+				return []value(nil)
+			}
+			return toValSlice(m)
+		},
+		"(*regexp.Regexp).FindAllString": func(fr *frame, a []value) value {
+			m := nativeRegexp(a[0]).FindAllString(str(a[1]), a[2].(int))
+			if m == nil {
+				return []value(nil)
+			}
+			return toValSlice(m)
+		},
+		"(*regexp.Regexp).FindAllStringSubmatch": func(fr *frame, a []value) value {
+			ms := nativeRegexp(a[0]).FindAllStringSubmatch(str(a[1]), a[2].(int))
+			if ms == nil {
+				return []value(nil)
+			}
+			out := make([]value, len(ms))
+			for i, m := range ms {
+				out[i] = toValSlice(m)
+			}
+			return out
+		},
+		"(*regexp.Regexp).String":     func(fr *frame, a []value) value { return nativeRegexp(a[0]).String() },
 		"(*sync.RWMutex).Lock":        func(fr *frame, a []value) value { return nil },
 		"(*sync.RWMutex).Unlock":      func(fr *frame, a []value) value { return nil },
 		"(*sync.RWMutex).RLock":       func(fr *frame, a []value) value { return nil },
@@ -559,4 +590,16 @@ func (e *Engine) internalChoice(n int) int {
 	}
 	x.addPC(eq(n - 1))
 	return n - 1
+}
+
+func nativeRegexp(v value) *regexp.Regexp {
+	p, ok := v.(*value)
+	if !ok || p == nil {
+		panic("unsupported: regexp that was not created through regexp.MustCompile in an initialised package")
+	}
+	n, ok := (*p).(*nativeObj)
+	if !ok {
+		panic("unsupported: regexp value is not a native handle")
+	}
+	return n.v.(*regexp.Regexp)
 }
